@@ -466,6 +466,64 @@ def stage_docstr_and_raw_tails(ctx: Ctx):
                                   {'start_src': src, 'how': f'{via} of {path} with {new!r}', 'src_now': root.src, **bad})
 
 
+def stage_expr_roots_and_compare(ctx: Ctx):
+    """deterministic: (a) raw edits of one character (blanked, deleted, replaced by a non-ASCII letter) at every position of small trees with an EXPRESSION root: every query on every
+    node vs a fresh tree of the new source in the same mode; (b) insertions at every index of a Compare's merged operand list with parenthesized code that spans lines"""
+    import fst
+
+    def same_as_fresh(root, mode):
+        try:
+            fresh = fst.FST(root.src, mode)
+        except Exception:
+            return None
+        a_, b_ = list(root.walk(True)), list(fresh.walk(True))
+        if [type(x.a) for x in a_] != [type(x.a) for x in b_]:
+            return {'why': 'node types differ from a fresh tree'}
+        for x, y in zip(a_, b_):
+            for name in ('loc', 'bloc', 'pars', 'own_src', 'lineno4'):
+                if q(x, name) != q(y, name):
+                    return {'why': 'query answer differs from a fresh tree', 'node': type(x.a).__name__, 'query': name, 'live': repr(q(x, name))[:120], 'fresh': repr(q(y, name))[:120]}
+        return False
+    for src in ['x[..., 1:2]', '[a + bc]', 'f(a, b.cd)', '(a, [b, cd])', 'a if b else cd', '{k: vw}', '[a, *bc]', 'x[1:2, ...]', '[a, b.c]', 'a < bc <= de', 'not ab', 'lambda a: bc', '[i for i in jk if lm]']:
+        for p_ in range(len(src)):
+            for new in (' ', '', 'é', '  '):
+                root = fst.FST(src, 'expr')
+                for g in root.walk(True):
+                    for name in CACHED_QUERIES:
+                        q(g, name)
+                try:
+                    root.put_src(new, 0, p_, 0, p_ + 1)
+                except Exception:
+                    ctx.tick(None, 'expr-root-raw:refused')
+                    continue
+                ctx.tick(('expr-root-raw', src, p_, new), 'expr-root-raw')
+                mode = 'expr' if isinstance(root.a, ast.expr) else None
+                bad = same_as_fresh(root, mode) if mode else None
+                if bad:
+                    ctx.violation(f'query|{bad.get("query", bad["why"][:30])}|{bad.get("node", "")}|expr-root-raw', 'a query on the edited tree answers differently from the same query on a tree freshly built from its source',
+                                  {'start_src': src, 'mode': 'expr', 'how': f'put_src({new!r}, 0, {p_}, 0, {p_ + 1})', 'src_now': root.src, **bad})
+    for src, path in [('bar = (y != z)\n', 'body[0].value'), ('bar = y != z < w\n', 'body[0].value'), ('if (a <\n    b): pass\n', 'body[0].test'), ('bar = [y == z]\n', 'body[0].value.elts[0]')]:
+        n = len(eval('fst.FST(src, "exec").' + path + '._all'))
+        for i in range(n + 1):
+            for code in ('(q\n)', '(\n q)', '(q)', 'q', '(q +\n r)', '((q)\n)'):
+                for side in ('left', 'right'):
+                    root = fst.FST(src, 'exec')
+                    node = eval('root.' + path)
+                    for g in root.walk(True):
+                        for name in CACHED_QUERIES:
+                            q(g, name)
+                    try:
+                        node.put_slice(code, i, i, '_all', one=True, op='!=', op_side=side)
+                    except Exception:
+                        ctx.tick(None, 'compare-insert:refused')
+                        continue
+                    ctx.tick(('compare-insert', src, i, code, side), 'compare-insert')
+                    bad = compare_with_fresh(root, ctx.rng, 0)
+                    if bad:
+                        ctx.violation(f'query|{bad.get("query", bad["why"][:30])}|{bad.get("node", "")}|compare-insert', 'a query on the edited tree answers differently from the same query on a tree freshly built from its source',
+                                      {'start_src': src, 'how': f'put_slice({code!r}, {i}, {i}, "_all", one=True, op="!=", op_side={side!r})', 'src_now': root.src, **bad})
+
+
 def stage_cache_corr(ctx: Ctx):
     """models/Cache.v vs the real loc cache on real nodes: ask / offset histories, answers must agree"""
     import fst
@@ -526,6 +584,7 @@ def run(ctx: Ctx):
     run_guarded(ctx, stage_accessor_caches, progs)
     run_guarded(ctx, stage_slice_sweep)
     run_guarded(ctx, stage_docstr_and_raw_tails)
+    run_guarded(ctx, stage_expr_roots_and_compare)
 
 
 def replay(path):
